@@ -76,26 +76,37 @@ Lemma col_of_spec (e : op) j : wf e = true ->
   end.
 Proof. intros Hwf. unfold col_of, canonical. destruct (norm j (snd (shape e))) as [j'|] eqn:E; cbn [option_map]; [|reflexivity].
   rewrite matvec_col by eauto using norm_lt. eauto. Qed.
-Lemma row_of_spec fl (e : op) i : wf e = true ->
+(* the fact `self.T is self` read off the implementation is harmless exactly when the operator is symmetric *)
+Definition sym_ok (fl : flags) (e : op) : Prop :=
+  f_T_self fl = false \/
+  (fst (shape e) = snd (shape e) /\ forall i j, (i < fst (shape e))%nat -> (j < fst (shape e))%nat -> den e i j = den e j i).
+Lemma matvec_T fl (e : op) p : wf e = true -> sym_ok fl e -> (p < fst (shape e))%nat ->
+  matvec (if f_T_self fl then e else Transp e) (evec (fst (shape e)) p) = Some (map (fun j => den e p j) (seq 0 (snd (shape e)))).
+Proof. intros Hwf Hs Hp. unfold sym_ok in Hs. destruct (f_T_self fl) eqn:ET; [|apply matvec_row; auto].
+  destruct Hs as [Hs|[Heq Hsym]]; [discriminate|].
+  rewrite Heq at 1. rewrite matvec_col by (auto; lia). f_equal. rewrite <- Heq.
+  apply map_ext_in. intros j Hj. apply in_seq in Hj. apply Hsym; lia. Qed.
+Lemma row_of_spec fl (e : op) i : wf e = true -> sym_ok fl e ->
   match row_of fl e i with
   | inr v => exists i', norm i (fst (shape e)) = Some i' /\ v = map (fun j => den e i' j) (seq 0 (snd (shape e)))
   | inl er => True
   end.
-Proof. intros Hwf. unfold row_of, canonical.
-  destruct (f_row_len_cols fl).
-  - destruct (norm i (snd (shape e))) as [i'|] eqn:E; cbn [option_map]; [|exact I].
-    unfold matvec at 1. cbn [evec nr shape snd]. destruct (Nat.eqb_spec (snd (shape e)) (fst (shape e))) as [Heq|]; [|exact I].
-    exists i'. rewrite <- Heq at 1. split; [exact E|].
-    assert (H := matvec_row e i' Hwf). rewrite <- Heq in H. specialize (H (norm_lt _ _ _ E)).
-    unfold matvec in H. cbn [evec nr shape snd] in H. rewrite Heq, Nat.eqb_refl in H. rewrite Heq. injection H as H. exact H.
-  - destruct (norm i (fst (shape e))) as [i'|] eqn:E; cbn [option_map]; [|exact I].
-    rewrite matvec_row by eauto using norm_lt. eauto. Qed.
-Lemma row_of_total fl (e : op) i i' : wf e = true -> norm i (fst (shape e)) = Some i' ->
+Proof. intros Hwf Hs. unfold row_of, canonical.
+  assert (Hcase : (if f_row_len_cols fl then snd (shape e) else fst (shape e)) = fst (shape e) \/
+                  (f_row_len_cols fl = true /\ f_T_self fl = false /\ fst (shape e) <> snd (shape e))).
+  { destruct (f_row_len_cols fl); [|left; reflexivity]. destruct (Nat.eq_dec (fst (shape e)) (snd (shape e))) as [Heq|Hne]; [left; congruence|].
+    destruct Hs as [Hs|[Heq _]]; [right; auto|contradiction]. }
+  destruct Hcase as [Hlen|(H1 & H2 & H3)].
+  - rewrite Hlen. destruct (norm i (fst (shape e))) as [i'|] eqn:E; cbn [option_map]; [|exact I].
+    rewrite matvec_T by eauto using norm_lt. eauto.
+  - rewrite H1, H2. destruct (norm i (snd (shape e))) as [i'|] eqn:E; cbn [option_map]; [|exact I].
+    unfold matvec. cbn [evec nr shape snd]. destruct (Nat.eqb_spec (snd (shape e)) (fst (shape e))) as [Heq|]; [congruence|exact I]. Qed.
+Lemma row_of_total fl (e : op) i i' : wf e = true -> sym_ok fl e -> norm i (fst (shape e)) = Some i' ->
   (f_row_len_cols fl = false \/ fst (shape e) = snd (shape e)) -> exists v, row_of fl e i = inr v.
-Proof. intros Hwf E Hsq. unfold row_of, canonical.
+Proof. intros Hwf Hs E Hsq. unfold row_of, canonical.
   assert (Hlen : (if f_row_len_cols fl then snd (shape e) else fst (shape e)) = fst (shape e)).
   { destruct Hsq as [-> | Heq]; [reflexivity|]. destruct (f_row_len_cols fl); congruence. }
-  rewrite Hlen, E. cbn [option_map]. rewrite matvec_row by eauto using norm_lt. eauto. Qed.
+  rewrite Hlen, E. cbn [option_map]. rewrite matvec_T by eauto using norm_lt. eauto. Qed.
 
 (* ---------- the list case (repaired: products with self) *)
 Lemma list_go_spec (e : op) li lj : wf e = true -> length li = length lj ->
@@ -145,12 +156,12 @@ Proof. intros _ _. unfold sliced. destruct (f_arr_cpu fl && (is_arr a || is_arr 
   exists rs, cs. eauto using axis_sel_spec. Qed.
 
 (* ===== getitem_den: whenever the model returns a value, it is the same indexing expression applied to den e ===== *)
-Theorem getitem_den fl (e : op) q : wf e = true -> listed q = true -> same_len q ->
+Theorem getitem_den fl (e : op) q : wf e = true -> sym_ok fl e -> listed q = true -> same_len q ->
   (f_list_dotA fl = false \/ is_list_pair q = false) ->
   (forall er, getitem fl e q <> Err er) ->
   exists s, spec_index (den e) (fst (shape e)) (snd (shape e)) q = Some s /\ res_matches e (getitem fl e q) s.
 Proof.
-  intros Hwf Hl Hsl HdotA Hok.
+  intros Hwf Hsym Hl Hsl HdotA Hok.
   assert (Hcol : forall b j, (forall er, col_then e b j <> Err er) ->
      exists s, spec_two (den e) (fst (shape e)) (snd (shape e)) b (IInt j) = Some s /\ res_matches e (col_then e b j) s).
   { intros b j Hne. unfold col_then in *. pose proof (col_of_spec e j Hwf) as Hc. destruct (col_of e j) as [er|v]; [exfalso; eapply Hne; reflexivity|].
@@ -161,7 +172,7 @@ Proof.
     - destruct Hv as (ids & -> & ->). eexists; split; reflexivity. }
   assert (Hrow : forall i b, (forall z, b <> IInt z) -> (forall er, row_then fl e i b <> Err er) ->
      exists s, spec_two (den e) (fst (shape e)) (snd (shape e)) (IInt i) b = Some s /\ res_matches e (row_then fl e i b) s).
-  { intros i b Hb Hne. unfold row_then in *. pose proof (row_of_spec fl e i Hwf) as Hc. destruct (row_of fl e i) as [er|v]; [exfalso; eapply Hne; reflexivity|].
+  { intros i b Hb Hne. unfold row_then in *. pose proof (row_of_spec fl e i Hwf Hsym) as Hc. destruct (row_of fl e i) as [er|v]; [exfalso; eapply Hne; reflexivity|].
     destruct Hc as (i' & Ei & ->). pose proof (index_vec_spec (fun j => den e i' j) (snd (shape e)) b) as Hv.
     unfold spec_two. cbn [spec_axis]. rewrite Ei. cbn [option_map].
     destruct (index_vec _ b) as [er|x|l|t]; [exfalso; eapply Hne; reflexivity| | |contradiction].
@@ -173,7 +184,7 @@ Proof.
     destruct Hs as (rs & cs & E1 & E2 & ->). unfold spec_two. rewrite E1, E2. eexists; split; reflexivity. }
   destruct q as [a|a b|]; [| |discriminate Hl].
   - (* One *) cbn [spec_index]. destruct a as [i|s|l|l]; [| | |discriminate Hl].
-    + cbn [getitem] in *. pose proof (row_of_spec fl e i Hwf) as Hc. destruct (row_of fl e i) as [er|v]; [exfalso; eapply Hok; reflexivity|].
+    + cbn [getitem] in *. pose proof (row_of_spec fl e i Hwf Hsym) as Hc. destruct (row_of fl e i) as [er|v]; [exfalso; eapply Hok; reflexivity|].
       destruct Hc as (i' & Ei & ->). unfold spec_two. cbn [spec_axis]. rewrite Ei, indices_full. cbn [option_map]. eexists; split; reflexivity.
     + cbn [getitem] in *. apply Hsl2; auto.
     + cbn [getitem] in *. apply Hsl2; auto.
@@ -203,13 +214,13 @@ Qed.
 
 (* ===== getitem_total: on the repaired tree (or on square operators for the row forms) every index expression that numpy
    accepts on the represented matrix is accepted ===== *)
-Theorem getitem_total fl (e : op) q s : wf e = true -> listed q = true ->
+Theorem getitem_total fl (e : op) q s : wf e = true -> sym_ok fl e -> listed q = true ->
   f_list_dotA fl = false -> f_arr_cpu fl = false -> f_list_empty_err fl = false ->
   (f_row_len_cols fl = false \/ fst (shape e) = snd (shape e)) ->
   spec_index (den e) (fst (shape e)) (snd (shape e)) q = Some s ->
   forall er, getitem fl e q <> Err er.
 Proof.
-  intros Hwf Hl HdotA Hcpu Hemp Hsq Hs.
+  intros Hwf Hsym Hl HdotA Hcpu Hemp Hsq Hs.
   assert (Hax : forall a n l, is_sa a = true -> spec_axis a n = Some (AIdx l) -> axis_sel a n = inr l).
   { intros a n l Ha. destruct a as [z|sl|z|z]; try discriminate Ha; cbn [spec_axis axis_sel];
     match goal with |- context [match ?x with _ => _ end] => destruct x; cbn [option_map]; [|discriminate] end; intros H; injection H as <-; reflexivity. }
@@ -230,12 +241,12 @@ Proof.
   assert (Hrow : forall i b s', spec_two (den e) (fst (shape e)) (snd (shape e)) (IInt i) b = Some s' -> forall er, row_then fl e i b <> Err er).
   { intros i b s'. unfold spec_two. cbn [spec_axis]. destruct (norm i (fst (shape e))) as [i'|] eqn:Ei; cbn [option_map]; [|discriminate].
     destruct (spec_axis b (snd (shape e))) as [y|] eqn:E2; [|discriminate]. intros _.
-    unfold row_then. destruct (row_of_total fl e i i' Hwf Ei Hsq) as (v & Hv). rewrite Hv.
-    pose proof (row_of_spec fl e i Hwf) as Hc. rewrite Hv in Hc. destruct Hc as (i'' & _ & ->). eapply index_vec_total; eauto. }
+    unfold row_then. destruct (row_of_total fl e i i' Hwf Hsym Ei Hsq) as (v & Hv). rewrite Hv.
+    pose proof (row_of_spec fl e i Hwf Hsym) as Hc. rewrite Hv in Hc. destruct Hc as (i'' & _ & ->). eapply index_vec_total; eauto. }
   destruct q as [a|a b|]; [| |discriminate Hl].
   - cbn [spec_index] in Hs. destruct a as [i|sl|l|l]; [| | |discriminate Hl]; cbn [getitem].
     + unfold spec_two in Hs. cbn [spec_axis] in Hs. destruct (norm i (fst (shape e))) as [i'|] eqn:Ei; cbn [option_map] in Hs; [|discriminate].
-      destruct (row_of_total fl e i i' Hwf Ei Hsq) as (v & ->). discriminate.
+      destruct (row_of_total fl e i i' Hwf Hsym Ei Hsq) as (v & ->). discriminate.
     + eapply Hsl2; eauto.
     + eapply Hsl2; eauto.
   - destruct b as [j|sb|lb|lb].
